@@ -4,6 +4,7 @@ EXTENDS Integers, Sequences, FiniteSets, TLC, Json, IOUtils
 A == INSTANCE FlytAccess WITH cell <- 0
 B == INSTANCE FlytBind WITH cell <- 0
 C == INSTANCE FlytConfig WITH MaxSteps <- 6, kind <- "node", steps <- <<>>, cfg <- 0
+D == INSTANCE FlytDefaults WITH cell <- 0
 Trace == ndJsonDeserialize(IOEnv.TRACE)
 Props == IOEnv.PROPS
 VARIABLES i, stats
@@ -12,7 +13,9 @@ Init == i = 1 /\ stats = [scenarios |-> 0, events |-> 0]
 Failing(c) == CASE c.fam = "access" -> A!C15_Failing(c.h)
                 [] c.fam = "bind"   -> B!C16_Failing(c.h)
                 [] c.fam = "config" -> C!C19_Failing(c.cfg, c.h)
-PropOf(c) == CASE c.fam = "access" -> "C15" [] c.fam = "bind" -> "C16" [] c.fam = "config" -> "C19"
+                \* partial nodes: the whole table for C01, the action rule alone for C18
+                [] c.fam = "defaults" -> IF Props = "C18" THEN D!Defaults_Failing(c.h) \cap {"partialAction"} ELSE D!Defaults_Failing(c.h)
+PropOf(c) == CASE c.fam = "access" -> "C15" [] c.fam = "bind" -> "C16" [] c.fam = "config" -> "C19" [] c.fam = "defaults" -> Props
 Detail(c) == CASE c.fam = "access" -> A!C15_BadCalls(c.h) [] c.fam = "bind" -> B!C16_BadCalls(c.h) [] OTHER -> {}
 Next ==
   /\ i <= Len(Trace)
